@@ -72,6 +72,19 @@ class C17(FsProp):
                                 "other_fs": k % 3 == 0})
         return out
 
+    def corruptions(self, recs):
+        import copy
+        from .mutate import first
+        out = []
+        for r in first(recs, lambda r: r["status"] == "ok" and r["fault"]["at"] == 0 and r["fault"]["kind"] == "none"):
+            m = copy.deepcopy(r)
+            m["final"] = "Empty"
+            out.append((m, "C17.safe"))
+            m = copy.deepcopy(r)
+            m["ops"] = [{"n": 0, "kind": "remove", "p": "M", "p2": "", "d": "", "extra": -1}] + m["ops"]
+            out.append((m, "C17.prefix"))
+        return out
+
     def case_id(self, rec_id):
         return rec_id // 1000
 
@@ -159,6 +172,24 @@ class C18(FsProp):
                 c["cwd_mode"] = "elsewhere" if k % 3 == 0 else "metadir"
         if tier != "thorough":
             out = [c for k, c in enumerate(out) if c["cmd"] in ("rename",) or k % 2 == 0]
+        return out
+
+    def corruptions(self, recs):
+        import copy
+        from .mutate import first
+        out = []
+        for r in first(recs, lambda r: r["cmd"] in ("recheck", "info", "magnet") and r["status"] == "ok"):
+            m = copy.deepcopy(r)
+            m["ops"] = [{"kind": "open_trunc", "p": "P:a", "p2": "", "d": "", "extra": -1}]
+            out.append((m, "C18.readonly"))
+        for r in first(recs, lambda r: r["cmd"] == "create" and r["status"] == "ok"):
+            m = copy.deepcopy(r)
+            m["added"] = m["added"] + ["T9"]
+            out.append((m, "C18.create"))
+        for r in first(recs, lambda r: r["cmd"] == "rename" and r["status"] == "ok"):
+            m = copy.deepcopy(r)
+            m["same_bytes"] = False
+            out.append((m, "C18.rename"))
         return out
 
     def nontrivial(self, case):
